@@ -41,6 +41,8 @@ type genOpts struct {
 	// errNoExit: no handler that EXITS (the token ends at the task: inside a sub-process that empties the scope and the
 	// sub-process returns, inlined nothing returns — the two programs are not comparable on such an answer)
 	errNoExit bool
+	// lagCheck: the instance carries a lagging subscriber (eng.LagSubscriber); report what it read at the end
+	lagCheck bool
 	undeclared bool
 	// tailCtask: the program may end with an activity that has conditional outgoing flows. Several of them can
 	// be true, so several tokens leave it; to stay inside well-defined token semantics the branches contain
@@ -488,6 +490,10 @@ func runGraphCase(out *rec.Out, fam string, g *eng.Graph, vars map[string]any, v
 		out.Line("%s", l)
 	}
 	out.Line("obs final complete=%d vars=%s", rec.B(complete), in.VarsAndObjects())
+	if o.lagCheck {
+		n, at, pl, ll := in.LagDiff()
+		out.Line("lagged n=%d at=%d prompt=%s lagged=%s", n, at, strings.ReplaceAll(pl, " ", "_"), strings.ReplaceAll(ll, " ", "_"))
+	}
 	if !o.noStop {
 		stopped := in.Stop(2 * time.Second)
 		if !stopped {
